@@ -133,7 +133,47 @@ def gen_case(rng, mode=None):
     case['mode'] = mode
     if mode == 'env':
         case['env'] = dict(rng.choice(ENVS))
+    if case['spec']:
+        s2 = gen_spec2(text, case['spec'])
+        if s2:
+            case['spec2'] = s2
     return case
+
+
+def gen_spec2(text, spec):
+    """a second, different, non-empty spec python accepts for a case whose style STORES `spec` (given explicitly at
+    the point of use, see observe); seeded by the case itself so that the streams of all other generators stay
+    what they were.  A spec whose result differs from that of the stored one is preferred"""
+    import random
+    try:
+        stored = format(text, spec)
+    except ValueError:
+        return None
+    rng = random.Random('spec2|' + text + '|' + spec)
+    for k in range(60):
+        s2 = gen_spec(rng, len(text))
+        if not s2 or s2 == spec:
+            continue
+        try:
+            other = format(text, s2)
+        except ValueError:
+            continue
+        if other != stored or k >= 40:
+            return s2
+    return None
+
+
+def valid_spec(rng, text, nonempty=False):
+    for _ in range(60):
+        s = gen_spec(rng, len(text))
+        if s is None or (nonempty and not s):
+            continue
+        try:
+            format(text, s)
+        except ValueError:
+            continue
+        return s
+    return '>3'
 
 
 def expected_enabled(case):
@@ -320,18 +360,18 @@ def observe(case, emulate_env=True):
     """run every entry point on the real code; returns {'outs': [[entry, out, err]], ...}"""
     from tatsu.ztyle import Style
     t, spec = case['text'], case['spec']
-    outs, lens, values = [], [], []
+    outs, lens, values, over = [], [], [], []
 
-    def rec(entry, fn):
+    def rec(entry, fn, to=outs):
         try:
             out = fn()
         except Exception as e:  # noqa: BLE001  observation, judged by the oracle
-            outs.append([entry, None, f'{type(e).__name__}: {str(e)[:120]}'])
+            to.append([entry, None, f'{type(e).__name__}: {str(e)[:120]}'])
             return
         if not isinstance(out, str):
-            outs.append([entry, None, f'returned {type(out).__name__}'])
+            to.append([entry, None, f'returned {type(out).__name__}'])
         else:
-            outs.append([entry, str.__str__(out), None])
+            to.append([entry, str.__str__(out), None])
 
     env = case.get('env') if (emulate_env and case['mode'] == 'env') else None
     with environment(env):
@@ -371,7 +411,170 @@ def observe(case, emulate_env=True):
                 rt[name] = {'repr': r, 'orig': _attrs_of(s), 'back': _attrs_of(Style.from_raw(r)), 'err': None}
             except Exception as e:  # noqa: BLE001
                 rt[name] = {'repr': None, 'err': f'{type(e).__name__}: {str(e)[:120]}'}
-    return {'outs': outs, 'lens': lens, 'values': values, 'repr': rt, 'wrap': wrap}
+        spec2 = case.get('spec2')
+        if spec and spec2:
+            # the style STORES spec (constructor / .fmt() / template(text, fmt=)); spec2 is given explicitly at
+            # the point of use through every entry point that takes one
+            s4 = base(t, fmt=spec)
+            rec('over-format', lambda: format(s1, spec2), over)
+            rec('over-fstring', lambda: f'{s2:{spec2}}', over)
+            rec('over-strformat', lambda: '{:{}}'.format(s4, spec2), over)
+            rec('over-format-method', lambda: s4.__format__(spec2), over)
+            rec('over-apply', lambda: basef.apply(t, fmt=spec2), over)
+            rec('over-apply-own', lambda: s1.apply(t, fmt=spec2), over)
+            rec('over-call', lambda: str(basef(t, fmt=spec2)), over)
+            rec('over-call-own', lambda: f'{s4(t, fmt=spec2)}', over)
+    return {'outs': outs, 'lens': lens, 'values': values, 'repr': rt, 'wrap': wrap, 'over': over}
+
+
+# --------------------------------------------------------------------------- lineages
+#
+# A lineage is a walk of public builder calls, each deriving the next style from the previous one, with
+# observations taken on every style BEFORE the next one is derived and on all of them again at the end.
+
+LINEAGE_OBS = ('len', 'bool', 'str', 'format', 'fstring', 'percent', 'repr', 'apply', 'value', 'formatx', 'applyx')
+LINEAGE_END = ('len', 'bool', 'str', 'fstring', 'formatx', 'value')
+
+
+def gen_lineage(rng):
+    text = gen_text(rng)
+    mode = rng.choices(['always', 'never', 'enable-true', 'enable-false', 'env'], [46, 18, 8, 6, 22])[0]
+    walk = {'text': text, 'spec': valid_spec(rng, text) if rng.random() < 0.5 else None, 'mode': mode,
+            'route': 'lineage'}
+    if mode == 'env':
+        walk['env'] = dict(rng.choice(ENVS))
+    walk.update(gen_attrs(rng) if rng.random() < 0.6 else {'fg': None, 'bg': None, 'mods': []})
+
+    def gen_obs(cur, names):
+        return [[n, valid_spec(rng, cur, nonempty=True)] if n.endswith('x') else [n] for n in names]
+
+    steps, obs, cur = [], [], text
+    n = rng.randint(2, 6)
+    for j in range(n + 1):
+        obs.append(gen_obs(cur, rng.sample(LINEAGE_OBS, rng.choice([0, 1, 1, 2, 2, 3, 4]))))
+        if j == n:
+            break
+        r = rng.random()
+        if r < 0.35:
+            st = ['fmt', valid_spec(rng, cur)]
+        elif r < 0.50:
+            cur = gen_text(rng)
+            st = ['callfmt', cur, valid_spec(rng, cur)]
+        elif r < 0.62:
+            cur = gen_text(rng)
+            st = ['call', cur]
+        elif r < 0.80:
+            st = ['mod', rng.choice(MODS)]
+        elif r < 0.90:
+            st = ['fg', gen_colour(rng)]
+        else:
+            st = ['bg', gen_colour(rng)]
+        steps.append(st)
+    walk['steps'], walk['obs'] = steps, obs
+    walk['end'] = gen_obs(cur, LINEAGE_END)
+    return walk
+
+
+def fold_lineage(walk):
+    """the attributes every style of the walk was asked for, folded from the builder calls"""
+    st = {k: walk[k] for k in ('text', 'spec', 'fg', 'bg', 'mode', 'route')}
+    st['mods'] = list(walk['mods'])
+    if 'env' in walk:
+        st['env'] = walk['env']
+    out = [st]
+    for op in walk['steps']:
+        st = dict(st)
+        if op[0] == 'fmt':
+            st['spec'] = op[1]
+        elif op[0] == 'callfmt':
+            st['text'], st['spec'] = op[1], op[2]
+        elif op[0] == 'call':
+            st['text'] = op[1]
+        elif op[0] == 'mod':
+            st['mods'] = [m for m in MODS if m in st['mods'] or m == op[1]]
+        else:
+            st[op[0]] = op[1]
+        out.append(st)
+    return out
+
+
+def _observe_one(s, ob, text):
+    name = ob[0]
+    try:
+        if name == 'len':
+            r = len(s)
+        elif name == 'bool':
+            r = bool(s)
+        elif name == 'str':
+            r = str(s)
+        elif name == 'format':
+            r = format(s)
+        elif name == 'fstring':
+            r = f'{s}'
+        elif name == 'percent':
+            r = '%s' % (s,)
+        elif name == 'repr':
+            r = repr(s)
+        elif name == 'apply':
+            r = s.apply(text)
+        elif name == 'value':
+            r = s.value
+        elif name == 'formatx':
+            r = format(s, ob[1])
+        elif name == 'applyx':
+            r = s.apply(text, fmt=ob[1])
+        else:
+            raise KeyError(name)
+    except Exception as e:  # noqa: BLE001  observation, judged by the oracle
+        return [ob, None, f'{type(e).__name__}: {str(e)[:120]}']
+    if isinstance(r, str):
+        r = str.__str__(r)
+    elif not isinstance(r, (int, bool)):
+        return [ob, None, f'returned {type(r).__name__}']
+    return [ob, r, None]
+
+
+def observe_lineage(walk, emulate_env=True):
+    """{'before': per style, 'end': per style, 'direct': per style (the same observations, in the same order,
+    on a style with the folded attributes built directly with the constructor)}"""
+    from tatsu.ztyle import Style
+    env = walk.get('env') if (emulate_env and walk['mode'] == 'env') else None
+    folded = fold_lineage(walk)
+    with environment(env):
+        col = _colour_obj(walk)
+        ckw = {} if col is None else {'color': col}
+        kw = {m: True for m in walk['mods']}
+        if walk['spec'] is not None:
+            kw['fmt'] = walk['spec']
+        s = Style(walk['text'], fg=_col(walk['fg']), bg=_col(walk['bg']), **kw, **ckw)
+        styles, before = [s], []
+        for j, obs in enumerate(walk['obs']):
+            before.append([_observe_one(s, ob, folded[j]['text']) for ob in obs])
+            if j == len(walk['steps']):
+                break
+            op = walk['steps'][j]
+            if op[0] == 'fmt':
+                s = s.fmt(op[1])
+            elif op[0] == 'callfmt':
+                s = s(op[1], fmt=op[2])
+            elif op[0] == 'call':
+                s = s(op[1])
+            elif op[0] == 'mod':
+                s = getattr(s, op[1])()
+            elif isinstance(op[1], list):
+                s = getattr(s, op[0] + '_rgb')(*op[1])
+            else:
+                s = getattr(s, op[0])(op[1])
+            styles.append(s)
+        end = [[_observe_one(z, ob, folded[j]['text']) for ob in walk['end']] for j, z in enumerate(styles)]
+        direct = []
+        for j, a in enumerate(folded):
+            kw = {m: True for m in a['mods']}
+            if a['spec'] is not None:
+                kw['fmt'] = a['spec']
+            d = Style(a['text'], fg=_col(a['fg']), bg=_col(a['bg']), **kw, **ckw)
+            direct.append([_observe_one(d, ob, a['text']) for ob in [*walk['obs'][j], *walk['end']]])
+    return {'before': before, 'end': end, 'direct': direct}
 
 
 # --------------------------------------------------------------------------- markup
